@@ -113,7 +113,9 @@ def run(chk, gate, status):
         rg = recipes.RecipeGen(rng, rng.randint(3, hi), allow_d13=False)
         cases.append((rg, make_queries(rng, rg, chk.tier)))
     chk.assumptions += ["no dilute step with new_name (known finding D31)", "fill_to steps address containers or whole plates (D13 is reported under C08/C07)"]
-    return recipes.check(chk, 'C15', cases, oracle, RULE, nontrivial)
+    cov = recipes.check(chk, 'C15', cases, oracle, RULE, nontrivial)
+    cov['queries_under_configuration_variants'] = recipes.variants(chk, cases, oracle, 'C15v', limit=8 if chk.tier == 'quick' else 60)
+    return cov
 
 
 def replay(path):
